@@ -11,6 +11,8 @@ from .c14 import eval_through_defs
 
 
 def run(repo, R):
+    from .momfam import compose_state_rules as _csr
+    _csr(R, repo, ['gbasis/integrals/overlap.py', 'gbasis/contractions.py', 'gbasis/spherical.py', 'gbasis/utils.py', 'gbasis/base.py', 'gbasis/base_one.py', 'gbasis/base_two_symm.py', 'gbasis/base_two_asymm.py', 'gbasis/base_four_symm.py'], "the property holds for every call, also after a shell's parameters were changed through its setters")
     R.rule("CUT", "cutoff == sqrt(-(a+b)/(a*b) * ln(tol)) with a, b the smallest exponents of shell one / two (sympy normal form)")
     R.rule("CMP", "screened <=> |coord_two - coord_one| > cutoff (strict), `None` means no screening and is decided first, bool rejected")
     R.rule("ZERO", "the screened block has the kernel's type (M_one, L_one, M_two, L_two) taken from the two shells themselves")
